@@ -72,6 +72,8 @@ func openStore(c *fw.Ctx, kind int, g *lab.PathGen, model map[string][]byte, tag
 
 func runC01(c *fw.Ctx) {
 	var psc lab.Scratch // every path handed to the trie lives in this re-used buffer
+	var vbox lab.ValueBox // every third inserted value travels in one re-used value object of the library's own type
+	defer func() { c.Count("inserts_with_a_reused_value_object", vbox.Used) }()
 	r := c.Rng
 	g := lab.NewPathGen(r)
 	model := map[string][]byte{}
@@ -127,7 +129,7 @@ func runC01(c *fw.Ctx) {
 			opName = "ins"
 			v := lab.GenValue(r, i)
 			c.Tracef("ins %q=%q", p, v)
-			key, err := m.Insert(psc.P(p), &lab.Val{B: v})
+			key, err := m.Insert(psc.P(p), vbox.V(v))
 			if err != nil {
 				fail("Insert(%q) failed: %v", p, err)
 				return
